@@ -93,20 +93,29 @@ def _iter_events(seed):
 
     rnd = random.Random(seed)
     ev = []
-    for _ in range(150):
-        n = rnd.randrange(1, 7)
-        genes, fcs, starts = [], [], []
+    from inscripta.biocantor.gene.variants import VariantInterval, VariantIntervalCollection
+
+    for _ in range(220):
+        n = rnd.randrange(1, 8)
+        genes, fcs, vcs, starts = [], [], [], []
         for k in range(n):
             s = rnd.randrange(0, 12) * 5
             e = s + rnd.randrange(2, 30)
-            if rnd.random() < 0.6:
+            r = rnd.random()
+            if r < 0.45:
                 genes.append(GeneInterval([mk_tx([[s, e]], rnd.choice("+-"), None, None, transcript_id="g%d" % k)]))
-            else:
+            elif r < 0.7:
                 fcs.append(FeatureIntervalCollection([FeatureInterval([s], [e], Strand.PLUS, feature_name="f%d" % k)]))
-        order = genes + fcs  # construction order as the library chains them
+            else:  # variant collections are members too, handed over in any order
+                vcs.append(VariantIntervalCollection([VariantInterval(s, s + 1, "A", "SNV", variant_name="v%d" % k)],
+                                                     variant_collection_name="vc%d" % k))
+        order = genes + fcs + vcs  # construction order as the library chains them
         starts = [x.start for x in order]
-        coll = AnnotationCollection(feature_collections=fcs, genes=genes)
+        coll = AnnotationCollection(feature_collections=fcs, genes=genes, variant_collections=vcs)
         it = [next(i for i, y in enumerate(order) if y is x) + 1 for x in coll]
+        if rnd.random() < 0.5:  # asked twice (the member list is memoised), and through the other accessors
+            it2 = [next(i for i, y in enumerate(order) if y is x) + 1 for x in coll.iter_children()]
+            ev.append(["iter", starts, it2])
         ev.append(["iter", starts, it])
     return ev
 
